@@ -15,16 +15,20 @@ from . import core, util
 
 PID = "C14"
 MANIFEST = dict(
-    text="Theorems no_stale_304 / fresh_after_change / etag_revalidates / lm_floor (and inm_sound, inm_complete about the "
-         "If-None-Match string code) hold for every history of rewrite/touch/wait operations and requests on the Gallina model "
-         "of Files.file_response, if_none_match, if_modified_since and the validators of FileResponse; the model is compared "
+    text="Theorems no_stale_304 / date_304_unchanged / date_decision / fresh_after_change / etag_revalidates / lm_floor (and "
+         "inm_sound, inm_complete about the If-None-Match string code) hold for every history of rewrite / touch / restore-with-"
+         "old-mtime / utime / wait operations and requests on the Gallina model; mtime_comparison_refuted shows that comparing "
+         "the date with the modification time breaks the date clause.  The model is "
+         "of Files.file_response, if_none_match, if_modified_since and the validators of FileResponse; it is compared "
          "with the live Files and Pages applications (WSGI and ASGI) on a virtualised file clock over every modification "
          "sequence up to length 4 from dt in {0, 0.4 s, 1 s, 3 s} (thorough: length 5 from {0, 0.4 s, 1 s}), probed with every validator form taken from "
          "every earlier response, plus random long histories and every short If-None-Match text.",
     note="Section premises (trusted, checked on every case): generate_etag is a SHA-1 hex digest, injective in (float st_mtime, "
          "size); two nanosecond timestamps a second or more apart give different floats and whole seconds one apart or more; "
-         "int(float timestamp) is monotone; parsedate(formatdate(s)) = s.  The property's operation alphabet sets both "
-         "timestamps to 'now' (restoring an old mtime with the same size keeps the ETag; outside the quantifier).",
+         "int(float timestamp) is monotone; parsedate(formatdate(s)) = s.  The ETag is a function of (float mtime, size): a "
+         "replacement with the same size that carries the old mtime keeps the ETag (outside the quantifier: the ETag clauses are "
+         "stated on what is hashed); the date clauses hold for every change because every change moves ctime.  mtime <= ctime <= "
+         "clock is the invariant (a file stamped with a future mtime is outside).",
     technique="Coq proof (string lemmas for split/strip, history invariant by induction over the operation list) + "
               "correspondence on a virtual clock + property oracle on observed histories",
     ref="5/C14")
@@ -32,7 +36,10 @@ MANIFEST = dict(
 RULE = ("cases: (a) every sequence of <=3 modifications over {rewrite same size, rewrite other size, touch} x dt {0, 0.4 s, 1 s, "
         "3 s}, each time point probed with a plain request, '*', and 10 validator forms (ETag plain / weak / first, middle, last "
         "of a list with decoys and white space / weak inside a list / Last-Modified / both) taken from every earlier plain "
-        "response, on Files and Pages, WSGI and ASGI (exhaustive); (b) every sequence of 4 modifications (thorough: also "
+        "response, on Files and Pages, WSGI and ASGI (exhaustive); (a') every sequence of <=3 (thorough 4) operations over that "
+        "alphabet plus {replace with same / other size keeping the old mtime x dt {0.4 s, 1 s}, utime 2 s back after 1 s, utime "
+        "1 s back at once} that contains one of the latter, probed likewise (length 3: at the end, from the first and one more time point; thorough "
+        "length 4: without dt 3 s, reduced forms); (b) every sequence of 4 modifications (thorough: also "
         "of 5 with dt in {0, 0.4 s, 1 s}) probed at the end with the forms taken from the first and one more (thorough, length 4: "
         "every) time point; (c) initial timestamps at the edges of a second (0, "
         ".9999994, .9999996, .99999995 s); (d) random histories of up to 30 operations with arbitrary dt, sizes, decoys, "
@@ -43,7 +50,8 @@ TRUSTED = ["virtual clock: os.stat replaced in the worker for the target file (f
            "own generate_etag for every file state of the case"]
 ASSUMPTIONS = ["SHA-1 hex digests: 40 hex digits, no collision between different (float mtime, size) texts",
                "float timestamps: >= 1 s apart in nanoseconds => different floats and int() at least one apart; int(float) monotone",
-               "modifications set mtime and ctime to the current clock value; the clock never runs backwards",
+               "every modification sets ctime to the current clock value and mtime to it or to an earlier time; the clock never runs "
+               "backwards (mtime <= ctime <= clock)",
                "the file's content is not changed without one of the modelled operations; size of the file = st_size"]
 EXHAUSTIVE = {"quick": True, "thorough": True}
 
@@ -102,6 +110,12 @@ def walk(case):
             mt, ct, gen = now, now, gen + 1
         elif o[0] == 2:
             now += o[1]
+        elif o[0] == 4:        # new content put in place with the old mtime: only ctime moves
+            now += o[1]
+            ver, size, ct, gen = ver + 1, o[2], now, gen + 1
+        elif o[0] == 5:        # os.utime to an earlier time: mtime := now - back, ctime := now
+            now += o[1]
+            mt, ct, gen = max(now - o[2], 0), now, gen + 1
         else:
             out.append((gen, ver, size, mt, ct))
     return out
@@ -112,12 +126,24 @@ def walk(case):
 MODS = [(kind, dt) for kind in ("same", "other", "touch") for dt in DTS]
 
 
-def mod_op(kind, dt, size):
+# operations that move ctime only (restore = replace keeping the old mtime; utime = set mtime back)
+NEW_MODS = [("rsame", 400_000_000), ("rsame", NS), ("rother", 400_000_000), ("rother", NS),
+            ("utime", NS, 2 * NS), ("utime", 0, NS)]
+ALL_MODS = MODS + NEW_MODS
+
+
+def mod_op(kind, dt, size, back=0):
+    nxt = SIZES[(SIZES.index(size) + 1) % len(SIZES)] if size in SIZES else SIZES[0]
     if kind == "same":
         return [0, dt, size], size
     if kind == "other":
-        nxt = SIZES[(SIZES.index(size) + 1) % len(SIZES)] if size in SIZES else SIZES[0]
         return [0, dt, nxt], nxt
+    if kind == "rsame":
+        return [4, dt, size], size
+    if kind == "rother":
+        return [4, dt, nxt], nxt
+    if kind == "utime":
+        return [5, dt, back], size
     return [1, dt], size
 
 
@@ -126,7 +152,7 @@ def probe_all(mods, size0):
     ops, plain, size, n = [], [], size0, 0
     for step in [None] + list(mods):
         if step is not None:
-            o, size = mod_op(step[0], step[1], size)
+            o, size = mod_op(*step[:2], size, *step[2:])
             ops.append(o)
         ops.append([3, 0, F_PLAIN])
         plain.append(n)
@@ -145,7 +171,7 @@ def probe_end(mods, size0, forms=VAL_FORMS, sources=None):
     ops, plain, size, n = [], [], size0, 0
     for step in [None] + list(mods):
         if step is not None:
-            o, size = mod_op(step[0], step[1], size)
+            o, size = mod_op(*step[:2], size, *step[2:])
             ops.append(o)
         ops.append([3, 0, F_PLAIN])
         plain.append(n)
@@ -205,7 +231,12 @@ def random_case(rng):
             if rng.random() < 0.2:
                 o[2] = size = rng.choice([6, 7, 8, 9, 10, 11, 64])
             ops.append(o)
-        elif r < 0.28:
+        elif r < 0.24:
+            o, size = mod_op(rng.choice(["rsame", "rother"]), dt, size)
+            ops.append(o)
+        elif r < 0.27:
+            ops.append([5, dt, rng.choice([0, 1, 400_000_000, NS, NS + 1, 2 * NS, 86400 * NS, rng.randrange(3 * NS), 10 ** 30])])
+        elif r < 0.31:
             ops.append([1, dt])
         elif r < 0.33:
             ops.append([2, dt])
@@ -228,6 +259,9 @@ def literal_cases():
     # Last-Modified rounded up by formatdate: modified in the last half microsecond of a second, again 1 s later
     yield hist(0, 0, 0, 999_999_600, [[3, 0, F_PLAIN], [0, NS, 8], [3, 0, 9]])
     yield hist(1, 1, 1, 999_999_600, [[3, 0, F_PLAIN], [1, 400_000_000], [3, 0, 9]])
+    # the date is compared with the CHANGE time: replaced by a file of another / the same size carrying the old mtime
+    yield hist(0, 0, 0, 300_000_000, [[3, 0, F_PLAIN], [4, 3 * NS, 9], [3, 0, 9], [3, 0, 1]])
+    yield hist(1, 1, 2, 300_000_000, [[3, 0, F_PLAIN], [4, NS, 8], [3, 0, 9], [3, 0, 1], [5, NS, 5 * NS], [3, 0, 9], [3, 0, 10]])
 
 
 def cases(tier, rng):
@@ -246,6 +280,28 @@ def cases(tier, rng):
                 n += 1
                 a, i = COMBOS[n % 4]
                 yield "exhaustive-probe-all", hist(a, i, n // 4, 300_000_000, ops)
+    # (a') sequences containing an operation that moves only ctime (restore with the old mtime, utime)
+    new = set(NEW_MODS)
+    for k in range(1, 5 if tier == "thorough" else 4):
+        # length 4: dt 3 s left out (1 s already crosses the second)
+        for mods in itertools.product(ALL_MODS if k < 4 else [m for m in ALL_MODS if m[1] != 3 * NS], repeat=k):
+            if not new.intersection(mods):
+                continue
+            n += 1
+            if k <= (2 if tier == "thorough" else 1):
+                for a, i in COMBOS:
+                    yield "exhaustive-ctime-only", hist(a, i, n, 300_000_000, probe_all(mods, SIZES[0]))
+            elif k == 2 or (k == 3 and tier == "thorough"):
+                a, i = COMBOS[n % 4]
+                yield "exhaustive-ctime-only", hist(a, i, n // 4, 300_000_000, probe_all(mods, SIZES[0]))
+            elif k == 3:
+                a, i = COMBOS[n % 4]
+                yield "exhaustive-ctime-only", hist(a, i, n // 4, 300_000_000,
+                                                    probe_end(mods, SIZES[0], VAL_FORMS, (0, 1 + n % 2)))
+            else:
+                a, i = COMBOS[n % 4]
+                yield "exhaustive-ctime-only", hist(a, i, n // 4, (0, 300_000_000, 999_999_600)[n % 3],
+                                                    probe_end(mods, SIZES[0], [1, 9, 10], (0, 1 + n % 3)))
     # (c) edges of a second
     for nsec0 in (0, 999_999_400, 999_999_600, 999_999_950):
         for k in range(0, 3):
@@ -257,7 +313,7 @@ def cases(tier, rng):
                     yield "exhaustive-second-edges", hist(a, i, n, nsec0, ops, size0=SIZES[1])
     # (b) probing at the end
     for k in ((4,) if tier == "quick" else (4, 5)):
-        few = [1, 6, 9, 10, 11] if k == 5 else VAL_FORMS
+        few = [1, 6, 9, 10, 11] if (k == 5 or tier == "quick") else VAL_FORMS
         # length 5: dt 3 s left out (1 s already crosses the second)
         for mods in itertools.product(MODS if k == 4 else [m for m in MODS if m[1] != 3 * NS], repeat=k):
             n += 1
@@ -475,6 +531,14 @@ def impl(case):
                 sync(False)
             elif o[0] == 2:
                 now += o[1]
+            elif o[0] == 4:
+                now += o[1]
+                ver, size, ct = ver + 1, o[2], now
+                sync(True)
+            elif o[0] == 5:
+                now += o[1]
+                mt, ct = max(now - o[2], 0), now
+                sync(False)
             else:
                 j, k = o[1], o[2]
                 inm, ims = forms[k]
@@ -615,7 +679,7 @@ def oracle(case, obs):
             continue
         sj = states[j]
         unchanged = sj[0] == gen
-        big = sj[2] != size or mt - sj[3] >= NS
+        big = sj[2] != size or abs(mt - sj[3]) >= NS     # what the tag can see: size, mtime by a second or more
         if has_etag:
             cur = etag_at_gen.get(gen)
             decoy_hit = cur is not None and any(inm_expected(cur.strip('"'), d) for d in list(inm[0]) + list(inm[4]))
@@ -625,21 +689,24 @@ def oracle(case, obs):
             if decoy_hit:
                 continue
             if big and r[0] != 200:
-                return ("stale-304:" + form_name(case, k).split(":")[0], "%s: since response %d size %d -> %d, mtime +%d ns, yet 304 to If-None-Match %r%s" % (
+                return ("stale-304:" + form_name(case, k).split(":")[0], "%s: since response %d size %d -> %d, mtime %+d ns, yet 304 to If-None-Match %r%s" % (
                     where, j, sj[2], size, mt - sj[3], render_inm(inm, src[2]), " with If-Modified-Since" if has_date else ""))
             if r[0] == 304 and cur is not None and cur != src[2]:
                 return ("stale-304:etag-differs", "%s: 304 although the current ETag %r differs from the one sent %r" % (where, cur, src[2]))
             if r[0] == 200 and big and r[2] == src[2]:
                 return ("validators-not-new", "%s: the file changed (size or >= 1 s) but the ETag is still %r" % (where, r[2]))
         else:
-            if unchanged and r[0] != 304:
+            # the date sees every change through the change time: content, size, either timestamp
+            edge = max(mt % NS, ct % NS, sj[3] % NS, sj[4] % NS) > 999_999_000
+            if unchanged and not edge and ct // NS == mt // NS and r[0] != 304:
                 return ("revalidate-fails:date", "%s: the file is unchanged since response %d, its Last-Modified got %d" % (where, j, r[0]))
-            if mt - sj[3] >= NS and r[0] != 200:
-                return ("stale-304:date", "%s: mtime moved by %d ns since response %d (second %d -> %d), yet 304 to its Last-Modified (second %d)" % (
-                    where, mt - sj[3], j, sj[3] // NS, mt // NS, src[3]))
-            if r[0] == 304 and max(mt % NS, sj[3] % NS) <= 999_999_000 and mt // NS != sj[3] // NS:
-                return ("stale-304:date-other-second", "%s: 304 although mtime is in second %d, response %d was in %d" % (
-                    where, mt // NS, j, sj[3] // NS))
+            if ct - sj[4] >= NS and r[0] != 200:
+                return ("stale-304:date", "%s: the file changed %d ns after response %d (version %d -> %d, size %d -> %d, mtime %+d ns, "
+                        "ctime second %d -> %d), yet 304 to its Last-Modified (second %d)" % (
+                            where, ct - sj[4], j, sj[1], ver, sj[2], size, mt - sj[3], sj[4] // NS, ct // NS, src[3]))
+            if r[0] == 304 and not edge and ct // NS != sj[4] // NS:
+                return ("stale-304:date-other-second", "%s: 304 although the change time is in second %d, at response %d it was in %d" % (
+                    where, ct // NS, j, sj[4] // NS))
             if r[0] == 200 and mt - sj[3] >= NS and not r[3] > src[3]:
                 return ("validators-not-new", "%s: mtime moved by >= 1 s but Last-Modified did not advance" % where)
     return None
@@ -677,7 +744,7 @@ def shrink(case):
         rest = [([3, o[1] - 1, o[2]] if o[0] == 3 and o[1] > idx else o) for o in ops[p + 1:]]
         yield case[:7] + [ops[:p] + rest]
     for p, o in enumerate(ops):
-        if o[0] in (0, 1, 2) and o[1] not in DTS:
+        if o[0] in (0, 1, 2, 4, 5) and o[1] not in DTS:
             for dt in DTS:
                 yield case[:7] + [ops[:p] + [[o[0], dt] + o[2:]] + ops[p + 1:]]
     if case[3] != 0:
